@@ -284,8 +284,11 @@ func (s *server) OnWebTransportSession(ctx *types.HttpContext, wt *webtransport.
 		return
 	}
 
+	// WebTransport only exists in revision 4 and its URL carries no query: both the
+	// handshake and an upgrade candidate get their transport built for revision 4.
+	ctx.Query().Set("EIO", "4")
+
 	if data, ok := value.Data.(types.BufferInterface); ok && data.Len() == 0 {
-		ctx.Query().Set("EIO", "4")
 		if codeMessage, t := s.Handshake(ctx.Request().Proto, ctx); t == nil {
 			abortUpgrade(ctx, codeMessage, nil)
 		}
